@@ -28,13 +28,27 @@ open Rustic.Check
 
 def SnapshotsAuthentic (r : Repo) : Prop := ∀ s ∈ r.snaps, s.authentic = true
 
-/-- (1) Soundness: a full check (`read_data`) without Error-level finding ⇒ every snapshot's trees and
-file chunks, as a restore / dump / ls reads them, are indexed, stored, MAC-valid, decode, have the recorded
-length and hash to their ids. -/
+/-- (0) **Which packs enter check's own index**: `check_packs` feeds its index collector with `index.packs` of
+every index file — the packs of the unmarked sections and nothing else; this is the pack list of the index every
+reader (restore / dump / ls: `GlobalIndex::new`) uses.  Packs that prune marked for deletion never answer a
+look-up of check. -/
+theorem check_index_is_reader_index (r : Repo) :
+    checkIndexPacks false r = livePacks r ∧
+    (∀ p ∈ checkIndexPacks false r, ∃ f ∈ r.index, p ∈ f.packs) ∧
+    (∀ lk, LkSoundOn (checkIndexPacks false r) lk ↔ LkSound r lk) := by
+  refine ⟨checkIndexPacks_false r, fun p hp => ?_, lkSound_iff_checkIndex r⟩
+  rw [checkIndexPacks_false] at hp
+  exact List.mem_flatMap.mp hp
+
+/-- (1) Soundness: a full check (`read_data`) without Error-level finding — its own index `lk` being built from
+the packs `check_packs` collects (`checkIndexPacks false`: unmarked only) — ⇒ every snapshot's trees and file
+chunks, as a restore / dump / ls reads them through that pack list, are indexed, stored, MAC-valid, decode, have
+the recorded length and hash to their ids. -/
 theorem check_ok_implies_restorable_partial (z : Sizes) (r : Repo) (lk : Lookup) (fuel : Nat)
-    (hlk : LkSound r lk) (hd : DirsOnly r lk) (h : check z true r lk fuel = .findings []) :
+    (hlk : LkSoundOn (checkIndexPacks false r) lk) (hd : DirsOnly r lk)
+    (h : checkW false z true r lk fuel = .findings []) :
     ∀ s ∈ r.snaps, RestoresCorrectly r lk s.tree :=
-  check_sound hlk hd h
+  check_sound ((lkSound_iff_checkIndex r lk).mp hlk) hd h
 
 /-- (1') … and the snapshot read is the snapshot written, when snapshot files are what their names say. -/
 theorem check_ok_implies_restores_original_partial (z : Sizes) (r : Repo) (lk : Lookup) (fuel : Nat)
@@ -151,6 +165,32 @@ theorem snapshot_swap_undetected :
   refine ⟨by decide, fun h => ?_, by decide⟩
   have := h ⟨2, false⟩ (by decide)
   simp at this
+
+/-- Why "unmarked only" matters (history: backup, forget, prune marks the packs, backup again, the index file of the
+second backup is lost): the only index file left lists the tree pack 10 and the data pack 30 as *marked for
+deletion*; both are still stored. -/
+def markedOnly : Repo :=
+  { snapsOk := true, snaps := [⟨1, true⟩], indexOk := true,
+    index := [{ packs := [], toDelete := [{ id := 10, blobs := [tblob 1], timeSet := true, size := none },
+                                         { id := 30, blobs := [dblob 3], timeSet := true, size := none }] }],
+    files := [treeFile 10 10 1 [fileNode [3]], dataFile 30 3] }
+
+/-- the code (check's index = unmarked packs) reports the snapshot as unreadable — as every reader finds it … -/
+theorem marked_packs_not_in_check_index :
+    check z0 true markedOnly (lkOf (checkIndexPacks false markedOnly)) 9 = .findings [.ErrorCheckingTrees] ∧
+    ¬ RestoresCorrectly markedOnly (lkFirst markedOnly) 1 := by
+  refine ⟨by decide, fun h => ?_⟩
+  have := blobOkB_complete (h 1 Reach.root).1
+  revert this
+  decide
+
+/-- … whereas a check whose index also collected the marked packs would be clean on the same repository although
+no reader can restore the snapshot (replayed on the real code by the `remove.index` / `index.drop-pack` faults
+on repositories with a forget/prune history). -/
+theorem marked_packs_in_check_index_unsound :
+    checkW true z0 true markedOnly (lkOf (checkIndexPacks true markedOnly)) 9 = .findings [] ∧
+    ¬ RestoresCorrectly markedOnly (lkFirst markedOnly) 1 :=
+  ⟨by decide, marked_packs_not_in_check_index.2⟩
 
 /-- Why `DirsOnly` is needed: a *file* node carrying a subtree whose blob is damaged — the streamers load
 that tree, `check_trees` never looks at its pack. -/
